@@ -351,6 +351,7 @@ fn exec<F: Flavour>(w: &mut World<F>, extras: &mut Vec<F::Node>, op: &TOp) -> Ob
 }
 
 fn log_of<F: Flavour>(sc: &TwinSc, stats: &mut Stats) -> Vec<Obs> {
+    crate::keys::set_style(crate::keys::style_from(sc.hash_seed));
     hashseam::set_seed(sc.hash_seed);
     let solo = Solo::new();
     if F::SYNC {
